@@ -149,7 +149,8 @@ Definition new_recovery (hnd : list tok) (hide anim : bool) (h pb : Z)
 
 Definition new_normal (hide anim : bool) (h pb pl : Z) (frames : list (list tok)) : list tok :=
   concat (map snd (new_writes hide anim h pb pl frames))
-  ++ (if anim then cud (h + pb - 1) else []) ++ new_final hide.
+  ++ (if anim then match frames with [] => [] | _ :: _ => cud (h + pb - 1) end else [])
+  ++ new_final hide.
 
 Definition new_interrupted (hnd : list tok) (hide anim : bool) (h pb pl : Z) (frames : list (list tok))
   (k j : nat) (c : option cut_kind) (inwrite : bool) : list tok :=
